@@ -16,9 +16,23 @@ import (
 // TJ is the JSON form of a dense tensor. Data are JSON numbers (integers in the
 // exact regime) or the strings "nan", "inf", "-inf"; bools are 0/1.
 type TJ struct {
-	Dt    string `json:"dt"`
-	Shape []int  `json:"shape"`
-	Data  []any  `json:"data"`
+	Dt    string   `json:"dt"`
+	Shape []int    `json:"shape"`
+	Data  []any    `json:"data"`
+	Bits  []uint64 `json:"bits,omitempty"` // float streams: float64 bit pattern of every element (exact)
+}
+
+// fT builds a float tensor carrying exact bit patterns next to the readable data.
+func fT(dt string, shape []int, v []float64) *TJ {
+	t := &TJ{Dt: dt, Shape: append([]int{}, shape...)}
+	for _, x := range v {
+		if dt == "f32" {
+			x = float64(float32(x))
+		}
+		t.Data = append(t.Data, fnum(x))
+		t.Bits = append(t.Bits, math.Float64bits(x))
+	}
+	return t
 }
 
 // Attr is the JSON form of a node attribute.
@@ -255,7 +269,14 @@ func mkTensor(t *TJ) tensor.Tensor {
 	if t == nil {
 		return nil
 	}
-	b := mkBacking(t.Dt, t.Data)
+	data := t.Data
+	if len(t.Bits) > 0 {
+		data = make([]any, len(t.Bits))
+		for i, b := range t.Bits {
+			data[i] = math.Float64frombits(b)
+		}
+	}
+	b := mkBacking(t.Dt, data)
 	if len(t.Shape) == 0 {
 		// scalar
 		return tensor.New(tensor.FromScalar(reflect.ValueOf(b).Index(0).Interface()))
